@@ -104,6 +104,7 @@ class ColorMatrix:
     def overlay_color(self, rect: Rect, color) -> None:
         # Set the cells within rect to color.
         self._normalize_rect(rect)
+        self._clip_rect(rect)
         for row in range(rect.top, rect.bottom + 1):
             for column in range(rect.left, rect.right + 1):
                 self._mat[row][column] = color
@@ -111,6 +112,7 @@ class ColorMatrix:
     def overlay_section(self, rect: Rect, srce) -> None:
         # Copy the contents of srce into the section.
         self._normalize_rect(rect)
+        self._clip_rect(rect)
         for row in range(rect.top, rect.bottom + 1):
             for column in range(rect.left, rect.right + 1):
                 self._mat[row][column] = srce[row][column]
@@ -129,6 +131,15 @@ class ColorMatrix:
                 param = round(param)
             raw_color.append(param)
         return raw_color
+
+    def _clip_rect(self, rect) -> None:
+        """
+        Cells outside of the matrix don't exist; leave them out.
+        """
+        rect.top = max(rect.top, 0)
+        rect.bottom = min(rect.bottom, self.height - 1)
+        rect.left = max(rect.left, 0)
+        rect.right = min(rect.right, self.width - 1)
 
     def _normalize_rect(self, rect) -> None:
         """
